@@ -814,6 +814,15 @@ class AsyncFIXConnection:
             elif msg.msg_type == FMsg.SEQUENCERESET:
                 await self._process_seqreset(msg)
             elif msg.msg_type == FMsg.LOGOUT:
+                if int(msg[FTag.MsgSeqNum]) == self._session.next_num_in:
+                    # count and journal the peer's Logout before the session is torn down
+                    try:
+                        self._session.set_next_num_in(msg)
+                        self._journaler.persist_msg(
+                            raw_msg, self._session, MessageDirection.INBOUND
+                        )
+                    except Exception:
+                        self.log.exception("peer Logout could not be journaled")
                 await self._process_logout(msg)
 
             if self._connection_state <= ConnectionState.DISCONNECTED_BROKEN_CONN:
